@@ -4,6 +4,7 @@
   and by `down` from a single downward defect. Helper lemmas only; the property statements are in Props/C08.
 -/
 import SugarModel.Model.Evict
+import SugarModel.Lemmas.Pure
 namespace Sugar.Evict
 variable {α : Type}
 
@@ -665,5 +666,110 @@ theorem heap_singleton {E : Type} (lt : E → E → Bool) (e : E) : Heap lt [e] 
 
 theorem mem_addVol (v : List Bytes) (k : Bytes) (h : k ∈ v) : k ∈ (if v.contains k then v else v ++ [k]) := by
   by_cases hc : v.contains k = true <;> simp [hc, h]
+
+/-! ### the random policies: what one round removes, and why the loops end -/
+
+theorem heap_nil {E : Type} (lt : E → E → Bool) : Heap lt ([] : List E) := by
+  intro k a p _ hka; simp at hka
+
+/-- deleteKey with its cache leg changes the keyspace exactly as the plain deleteKey does -/
+theorem deleteKeyE_state (cfg : Cfg) (es es' : EState) (db : Nat) (k : Bytes)
+    (hdel : deleteKeyE cfg es db k = .ok es') : es'.s = Sugar.deleteKey es.s db k := by
+  unfold deleteKeyE at hdel
+  split at hdel
+  · split at hdel
+    · contradiction
+    · split at hdel
+      · contradiction
+      · injection hdel with hdel; rw [← hdel]
+  · split at hdel
+    · split at hdel
+      · contradiction
+      · split at hdel
+        · contradiction
+        · injection hdel with hdel; rw [← hdel]
+    · injection hdel with hdel; rw [← hdel]
+
+/-- under the random policies deleteKey has no cache leg: it cannot fail -/
+theorem deleteKeyE_random (cfg : Cfg) (es : EState) (db : Nat) (k : Bytes)
+    (hpol : cfg.policy = .allkeysRandom ∨ cfg.policy = .volatileRandom) :
+    deleteKeyE cfg es db k = .ok { es with s := Sugar.deleteKey es.s db k } := by
+  unfold deleteKeyE
+  cases hpol with
+  | inl h => simp [isLfuPol, isLruPol, h]
+  | inr h => simp [isLfuPol, isLruPol, h]
+
+theorem hasDb_of_store_ne (s : State) (db : Nat) (h : (s.db db).store ≠ []) : s.hasDb db = true := by
+  unfold State.db at h
+  unfold State.hasDb
+  cases hg : s.dbs.get db with
+  | none => simp [hg] at h
+  | some d => rfl
+
+theorem hasDb_of_vol_ne (s : State) (db : Nat) (h : (s.db db).vol ≠ []) : s.hasDb db = true := by
+  unfold State.db at h
+  unfold State.hasDb
+  cases hg : s.dbs.get db with
+  | none => simp [hg] at h
+  | some d => rfl
+
+theorem db_deleteKey_same (s : State) (db : Nat) (k : Bytes) (hdb : s.hasDb db = true) :
+    (Sugar.deleteKey s db k).db db = ⟨(s.db db).store.del k, (s.db db).vol.filter (· != k)⟩ := by
+  simp [Sugar.deleteKey, hdb, State.db, NMap.get_put_same]
+
+theorem kmap_del_length_le {α : Type} (m : KMap α) (k : Bytes) : (m.del k).length ≤ m.length := by
+  induction m with
+  | nil => simp [KMap.del]
+  | cons p r ih =>
+    obtain ⟨k', v⟩ := p
+    by_cases h : k' = k
+    · simp only [KMap.del, h, if_true, List.length_cons]; omega
+    · simp only [KMap.del, h, if_false, List.length_cons]; omega
+
+theorem kmap_del_length_lt {α : Type} (m : KMap α) (k : Bytes) (h : k ∈ m.map Prod.fst) :
+    (m.del k).length < m.length := by
+  induction m with
+  | nil => simp at h
+  | cons p r ih =>
+    obtain ⟨k', v⟩ := p
+    by_cases hk : k' = k
+    · have := kmap_del_length_le r k
+      simp only [KMap.del, hk, if_true, List.length_cons]; omega
+    · simp only [List.map_cons, List.mem_cons] at h
+      have hr : k ∈ r.map Prod.fst := by
+        cases h with
+        | inl h => exact absurd h.symm hk
+        | inr h => exact h
+      have := ih hr
+      simp only [KMap.del, hk, if_false, List.length_cons]; omega
+
+theorem filter_ne_length_lt (l : List Bytes) (k : Bytes) (h : k ∈ l) : (l.filter (· != k)).length < l.length := by
+  induction l with
+  | nil => simp at h
+  | cons x r ih =>
+    by_cases hx : x = k
+    · have := List.length_filter_le (· != k) r
+      simp only [List.filter, hx, bne_self_eq_false, List.length_cons]; omega
+    · have hr : k ∈ r := by
+        cases List.mem_cons.mp h with
+        | inl h => exact absurd h.symm hx
+        | inr h => exact h
+      have := ih hr
+      have hb : (x != k) = true := by simpa using hx
+      simp only [List.filter, hb, List.length_cons]; omega
+
+/-- every victim of allkeys-random is a key of the database -/
+theorem victims_sub_store (env : Env) (s : State) (phase db : Nat) (k : Bytes) (h : k ∈ victims env s phase db) :
+    k ∈ (s.db db).store.map Prod.fst := by
+  unfold victims at h
+  simp only [List.mem_mergeSort] at h
+  exact (List.mem_filter.mp h).1
+
+/-- **every victim of volatile-random is a cell of the volatile index of that database** -/
+theorem volVictims_sub_vol (env : Env) (s : State) (phase db : Nat) (k : Bytes) (h : k ∈ volVictims env s phase db) :
+    k ∈ (s.db db).vol := by
+  unfold volVictims at h
+  simp only [List.mem_mergeSort] at h
+  exact (List.mem_filter.mp h).1
 
 end Sugar.Evict
